@@ -1310,4 +1310,49 @@ Proof.
       rewrite Forall_forall in *. intros x Hx. apply it_ok_tyme. now apply G1.
 Qed.
 
+(* ---------- what enter produces (static well-formedness) ---------- *)
+
+Lemma gs_enter_wf t D : forall (gs : list (gitem T)) o its o',
+  gs_enter t gs o = (its, o') ->
+  subl (its_ids its) (gs_ids gs) /\ (Forall (g_wf D) gs -> Forall (it_wf D) its).
+Proof.
+  induction gs as [|g gs IH]; intros o its o' E; cbn [gs_enter] in E.
+  - inversion E; subst. split; [apply subl_nil|auto].
+  - unfold gs_ids. cbn [flat_map]. fold (gs_ids gs).
+    destruct g as [l|n kids].
+    + destruct (lf_enter t l o) as [ov o1] eqn:El.
+      destruct (gs_enter t gs o1) as [r' o2] eqn:Ep. destruct (IH _ _ _ Ep) as [S W].
+      inversion E; subst. destruct ov as [v|].
+      * pose proof (lf_enter_leaf _ _ _ _ _ El) as Lv. split.
+        -- unfold its_ids at 1. cbn [flat_map it_ids g_ids app]. unfold lv_id. rewrite Lv. now apply subl_keep.
+        -- intro F. apply Forall_cons_iff in F as [Fi FU]. constructor; [|auto].
+           cbn [it_wf g_wf] in *. unfold lv_id. now rewrite Lv.
+      * split; [now apply subl_skip|]. intro F. apply Forall_cons_iff in F as [_ FU]. auto.
+    + destruct (lfs_enter t kids o) as [kids' o1] eqn:Ek.
+      destruct (gs_enter t gs o1) as [r' o2] eqn:Ep. destruct (IH _ _ _ Ep) as [S W].
+      pose proof (lfs_enter_subl _ _ _ _ _ Ek) as Sk.
+      inversion E; subst. split.
+      * unfold its_ids at 1. cbn [flat_map]. fold (its_ids r'). apply subl_app; [|exact S].
+        cbn [it_ids g_ids]. apply subl_keep. rewrite lv_id_map. now apply subl_map.
+      * intro F. apply Forall_cons_iff in F as [Fi FU]. constructor; [|auto].
+        cbn [it_wf g_wf] in *. destruct Fi as (NV & Dn & DK & VK).
+        split; [exact NV|]. split; [exact Dn|].
+        rewrite <- (Forall_map v_leaf (leaf_in D)).
+        rewrite <- (Forall_map v_leaf (fun l => In (lf_id l) vis)).
+        split; eapply subl_Forall; eassumption.
+Qed.
+
+Lemma Rep_rlive s its o (v : bool) : Rep s its o -> Rep (set_rlive s v) its o.
+Proof.
+  intros (Dq & G & W & ND & OK). split; [exact Dq|]. split; [|split; [exact W|split; [exact ND|]]].
+  - rewrite Forall_forall in *. intros it Hit. specialize (G it Hit). destruct it; exact G.
+  - destruct OK as [E D]. split; assumption.
+Qed.
+
+Lemma oof_cycle_loop c f s limit stop : oof (cycle_loop tk c f s limit stop) = false -> oof s = false.
+Proof.
+  intro O. destruct (oof s) eqn:Os; [|reflexivity].
+  rewrite (cycle_loop_oof_fwd c f s limit stop Os) in O. discriminate.
+Qed.
+
 End Run.
